@@ -324,6 +324,12 @@ pub fn run_op<F: Future>(world: &Shared, mut fut: Pin<&mut F>, opts: OpOpts, pen
                         };
                         match next {
                             None => {
+                                // nothing is scheduled and the client armed no timer: a caller
+                                // that waits for a bounded time has waited that long
+                                if opts.deadline != u64::MAX && opts.deadline > now {
+                                    vtime::advance_to(opts.deadline);
+                                    world.borrow_mut().ev(Ev::Time { from: now, to: vtime::now() });
+                                }
                                 world.borrow_mut().cancel_io();
                                 return Ran::CallerTimeout;
                             }
